@@ -41,8 +41,10 @@ TRUSTED = ["theories/Wire/WireModel.v is a hand transcription of dds/src/rtps_me
 ASSUMPTIONS = ["debug profile (overflow checks on), as built by the harness",
                "RTPS message decoder only (EXTRA_DECODERS is empty): parameter-list and XCDR payload decoders are "
                "covered by other checks",
-               "no panic is claimed outside the recorded class C07-fragset-numbits; linear memory/cost outside "
-               "C07-inforeply-overread"]
+               "no panic is claimed outside the recorded class C07-fragset-numbits (inside it the decoder always "
+               "panics); linear retained memory outside C07-inforeply-overread; linear copy/loop/allocation cost "
+               "outside C07-inforeply-overread and C07-data-rescan",
+               "the memory and cost theorems are stated for lists of bytes (0..255); the no-panic theorem for any list"]
 
 U16 = [0, 1, 2, 3, 4, 5, 7, 8, 12, 16, 20, 24, 28, 31, 32, 33, 255, 256, 257, 288, 0x7fff, 0x8000, 0xfffc, 0xffff]
 U32 = [0, 1, 2, 31, 32, 33, 255, 256, 257, 288, 512, 65535, 65536, 0x7fffffff, 0x80000000, 0xfffffeff, 0xffffff00, 0xffffff01, 0xfffffffe, 0xffffffff]
@@ -116,7 +118,7 @@ def mutation_ops(r, m):
 
 
 def gen(r, tier):
-    n = {"quick": 5000, "search": 20000, "thorough": 60000}[tier]
+    n = {"quick": 4000, "search": 20000, "thorough": 60000}[tier]
     out = []          # byte strings
     # 1. pure random and short inputs, every length 0..64
     for k in range(0, 65):
@@ -151,7 +153,7 @@ def gen(r, tier):
     for t in range(0, 300, 1 if tier != "quick" else 3):
         mut.append("LE t@%d | %s" % (t, full))
     # 4. random messages with random structure-aware mutations
-    nm = {"quick": 2200, "search": 9000, "thorough": 30000}[tier]
+    nm = {"quick": 1800, "search": 9000, "thorough": 30000}[tier]
     for _ in range(nm):
         m = W.rmsg(r)
         mut.append("%s %s | %s" % (r.choice(["LE", "LE", "BE"]), mutation_ops(r, m) if r.random() < 0.9 else "-", W.msg_text(m)))
@@ -266,13 +268,16 @@ MANIFEST = {
              "RtpsMessageRead::try_from and all 12 submessage parsers, with a cost output (bytes copied, loop "
              "iterations, bytes allocated): for EVERY byte string the decoder returns a value or an error and never "
              "panics, except in one recorded class (NACK_FRAG with numBits > 256 or base + bit > u32::MAX, which indexes "
-             "out of the 8-word bitmap / overflows); the memory held by the result is bounded by a constant multiple "
-             "of the input length except in a second recorded class (INFO_REPLY locator counts that exceed the "
-             "submessage, read from the rest of the datagram). The model is tied to the code by running the real "
+             "out of the 8-word bitmap / overflows; inside the class it always panics); the memory held by the result "
+             "is at most 26 bytes per input byte except in a second recorded class (INFO_REPLY locator counts that "
+             "exceed the submessage, read from the rest of the datagram), and the copy/loop/allocation cost is at most "
+             "400 per input byte outside that class and a third one (a failing DATA of length 0 is rescanned); witnesses "
+             "show the bounds fail inside the classes. The model is tied to the code by running the real "
              "decoder under catch_unwind with a counting allocator on thousands of random, mutated and boundary "
              "inputs and comparing result and measured allocation with the model inside Coq."),
     "note": ("Trusted: Coq kernel + vm_compute; hand model WireModel.v (checked against the code by the correspondence "
              "run on every check); harness, counting allocator and comparator. Debug profile. Findings: "
-             "C07-fragset-numbits (panic at submessage_elements.rs:151/152), C07-inforeply-overread (quadratic memory)."),
+             "C07-fragset-numbits (panic at submessage_elements.rs:151/152), C07-inforeply-overread (quadratic memory), "
+             "C07-data-rescan (quadratic work / allocation traffic)."),
     "technique": "Coq proof (induction over the submessage loop, cost as second output) + differential correspondence under catch_unwind with a counting allocator",
 }
